@@ -71,6 +71,13 @@ type Plan struct {
 	MisbehavePct int     `json:"misbehave_pct"` // percent of action/predicate invocations that write to c.state
 	Faults       []Fault `json:"faults,omitempty"`
 	MaxEvents    int     `json:"max_events"`
+	// NestedPct: percent of action invocations that make a re-entrant Parse call
+	// on the same generated package (user code does that, e.g. for include
+	// directives); the nested parse has its own context.
+	NestedPct int `json:"nested_pct,omitempty"`
+	// ErrPct: percent of code-block invocations that return an error (kind
+	// "err") chosen by hash rather than listed in Faults.
+	ErrPct int `json:"err_pct,omitempty"`
 }
 
 // Injected is one error handed to the parser by a block.
@@ -93,6 +100,9 @@ type Ctx struct {
 	counts   []int
 	Overflow bool // more than MaxEvents events
 	Backward bool // the globalStore counter went backwards or was lost
+	// Nested, when set by the glue, runs a re-entrant parse.
+	Nested     func()
+	NestedRuns int
 }
 
 // NewCtx makes a context for a plan.
@@ -213,6 +223,9 @@ func event(gs map[string]any, kind byte, site, line, col, off int, text []byte, 
 			fault = f
 		}
 	}
+	if fault == nil && c.Plan.ErrPct > 0 && int(H(c.Plan.Seed, site, n, 5)%100) < c.Plan.ErrPct {
+		fault = &Fault{Site: site, N: n, Kind: "err"}
+	}
 	max := c.Plan.MaxEvents
 	if max == 0 {
 		max = 2000
@@ -327,6 +340,11 @@ func (p *Plan) PredTruth(site, n int) bool {
 	return int(H(p.Seed, site, n, 2)%100) < p.PredTruePct
 }
 
+// Nests says whether the action block (site, n) makes a re-entrant Parse call.
+func (p *Plan) Nests(site, n int) bool {
+	return p.NestedPct > 0 && int(H(p.Seed, site, n, 4)%100) < p.NestedPct
+}
+
 // Misbehaves says whether the action/predicate block (site, n) writes to the
 // state store although only state blocks may.
 func (p *Plan) Misbehaves(site, n int) bool {
@@ -360,6 +378,10 @@ func misbehave(st map[string]any, site, n int) {
 // Act is the body of every action block.
 func Act(gs map[string]any, site, line, col, off int, text []byte, st map[string]any, labels ...any) (any, error) {
 	c, n, f := event(gs, KAct, site, line, col, off, text, st, labels)
+	if c.Nested != nil && c.Plan.Nests(site, n) {
+		c.NestedRuns++
+		c.Nested()
+	}
 	if c.Plan.Misbehaves(site, n) {
 		misbehave(st, site, n)
 	}
